@@ -46,24 +46,24 @@ Bit(b) == IF b THEN "1" ELSE "0"
 HasTarget(ctx, t) == t \in DOMAIN ctx.targets
 \* $<TARGET_PROPERTY:tgt,prop>: "Value of the property prop on the target tgt"; a list-valued
 \* property is a semicolon-separated list; an unset property is the empty string
-PropText(ctx, t, p) == LET ps == ctx.targets[t] IN IF p \in DOMAIN ps THEN Join(ps[p], ";") ELSE ""
+PropText(ctx, t, p) == LET ps == ctx.targets[t] IN IF p \in DOMAIN ps THEN JoinStr(ps[p], ";") ELSE ""
 
-\* $<TARGET_FILE:tgt> "Full path to the tgt binary file" - for the IMPORTED targets Meson sees, the
-\* IMPORTED_LOCATION_<CONFIG> of the configuration selected among IMPORTED_CONFIGURATIONS (the build
-\* configuration when listed, else the first listed one), falling back to IMPORTED_LOCATION
-\* (cmake-properties(7) IMPORTED_LOCATION, IMPORTED_CONFIGURATIONS).
-ChosenConfig(ps, debug) ==
-    LET cfgs == IF "IMPORTED_CONFIGURATIONS" \in DOMAIN ps THEN ps["IMPORTED_CONFIGURATIONS"] ELSE <<>>
-        want == IF debug THEN "DEBUG" ELSE "RELEASE"
-    IN IF cfgs = <<>> THEN "" ELSE IF \E i \in 1..Len(cfgs) : cfgs[i] = want THEN want ELSE cfgs[1]
+\* $<TARGET_FILE:tgt> "Full path to the tgt binary file" - for the IMPORTED targets Meson sees this is the
+\* location cmake-properties(7) IMPORTED_LOCATION describes: "The IMPORTED_LOCATION target property may be overridden
+\* for a given configuration <CONFIG> by the configuration-specific IMPORTED_LOCATION_<CONFIG> target property. ...
+\* If none of these is set then the name of any other configuration listed in the IMPORTED_CONFIGURATIONS target
+\* property may be selected and its IMPORTED_LOCATION_<CONFIG> value used."  ("any other": the first listed one that
+\* has a location; inputs are generated with at most one candidate.)
 NonEmptyProp(ps, p) == p \in DOMAIN ps /\ ps[p] # <<>> /\ ps[p][1] # ""
 Location(ctx, t) ==
     IF ~HasTarget(ctx, t) THEN Bad("no-such-target")
     ELSE LET ps == ctx.targets[t]
-             c == ChosenConfig(ps, ctx.debug)
-             pc == "IMPORTED_LOCATION_" \o c
-         IN IF c # "" /\ NonEmptyProp(ps, pc) THEN Ok(ps[pc][1])
+             want == "IMPORTED_LOCATION_" \o (IF ctx.debug THEN "DEBUG" ELSE "RELEASE")
+             cfgs == IF "IMPORTED_CONFIGURATIONS" \in DOMAIN ps THEN ps["IMPORTED_CONFIGURATIONS"] ELSE <<>>
+             others == { i \in 1..Len(cfgs) : NonEmptyProp(ps, "IMPORTED_LOCATION_" \o cfgs[i]) }
+         IN IF NonEmptyProp(ps, want) THEN Ok(ps[want][1])
             ELSE IF NonEmptyProp(ps, "IMPORTED_LOCATION") THEN Ok(ps["IMPORTED_LOCATION"][1])
+            ELSE IF others # {} THEN Ok(ps["IMPORTED_LOCATION_" \o cfgs[CHOOSE i \in others : \A j \in others : i <= j]][1])
             ELSE Bad("no-location")
 
 \* ---- the expressions ------------------------------------------------------------
@@ -101,15 +101,16 @@ Apply(n, vs, ctx) ==
                         ELSE IF IsInt(vs[1]) /\ IsInt(vs[2]) THEN Ok(Bit(IntVal(vs[1]) = IntVal(vs[2])))
                         ELSE Bad("not-a-number")
       [] n \in VersionOps -> IF Len(vs) = 2 THEN Ok(Bit(VerHolds(n, VerCmp(vs[1], vs[2])))) ELSE Bad("arity")
-      [] n = "LOWER_CASE" -> Ok(ToLower(Join(vs, ",")))
-      [] n = "UPPER_CASE" -> Ok(ToUpper(Join(vs, ",")))
+      [] n = "LOWER_CASE" -> Ok(ToLower(JoinStr(vs, ",")))
+      [] n = "UPPER_CASE" -> Ok(ToUpper(JoinStr(vs, ",")))
       \* "Content of ... when the target is used by another target in the same buildsystem" - the use Meson makes
-      [] n = "BUILD_INTERFACE" -> Ok(Join(vs, ","))
+      [] n = "BUILD_INTERFACE" -> Ok(JoinStr(vs, ","))
       \* "Content of ... when the property is exported using install(EXPORT), and empty otherwise"
       [] n = "INSTALL_INTERFACE" -> Ok("")
-      [] n = "ANGLE-R" -> IF vs = <<>> THEN Ok(">") ELSE Bad("arity")
-      [] n = "COMMA" -> IF vs = <<>> THEN Ok(",") ELSE Bad("arity")
-      [] n = "SEMICOLON" -> IF vs = <<>> THEN Ok(";") ELSE Bad("arity")
+      \* "These expressions evaluate to specific string literals" (the manual gives them without parameters)
+      [] n = "ANGLE-R" -> IF vs = <<>> THEN Ok(">") ELSE Bad("unsupported")
+      [] n = "COMMA" -> IF vs = <<>> THEN Ok(",") ELSE Bad("unsupported")
+      [] n = "SEMICOLON" -> IF vs = <<>> THEN Ok(";") ELSE Bad("unsupported")
       \* "1 if tgt exists as a CMake target, else 0"
       [] n = "TARGET_EXISTS" -> IF Len(vs) = 1 /\ vs[1] # "" THEN Ok(Bit(HasTarget(ctx, vs[1]))) ELSE Bad("arity")
       \* "The target name tgt if the target exists, an empty string otherwise"
